@@ -290,6 +290,25 @@ pub fn check(c: &Case, rec: &mut Rec) -> Result<(), String> {
             ));
         }
         rec.class("host-poke-into-contended-ram-mid-frame");
+        // the same for a snapshot taken at this moment (48K: the format parks PC on the stack for a
+        // moment — with the stack in contended RAM that must not cost emulated time either)
+        {
+            // (SP is moved into contended RAM for the snapshot and put back afterwards)
+            let sp_was = e.verif_cpu().regs.get_sp();
+            e.verif_cpu().regs.set_sp(0x5BF0);
+            let before_t = tb.emu_t(&e);
+            let mut file = Vec::new();
+            let r = e.save_snapshot(rustzx_core::host::SnapshotRecorder::Sna(crate::props::c13::VecRecorder(&mut file)));
+            rec.eval();
+            let after_t = tb.emu_t(&e);
+            e.verif_cpu().regs.set_sp(sp_was);
+            if r.is_ok() && after_t != before_t {
+                return Err(format!(
+                    "save_snapshot with the machine stopped at frame T {} and SP = 0x5bf0 (contended RAM): the frame clock moved by {} T-states — taking a snapshot takes no emulated time",
+                    before_t % frame_len, after_t as i64 - before_t as i64
+                ));
+            }
+        }
         // frames completed on the way to the breakpoint count from here on
         target = e.verif_total_frames() - frames0;
     }
